@@ -74,17 +74,27 @@ def analyse(facts, tier):
     obls.append(Obl('C17.R2', cm.name, 'mus_midimap == DMX controller table', g['loc'], 'discharged' if ok else 'finding', why='15 entries agree' if ok else 'entries %s differ: %s' % (bad, tv)))
     perc = False
     skip = None
-    for b, j, st in cm.cfg.stmts():
-        for x in walk(st['s']):
-            ap = assign_parts(x)
-            if ap and strip(ap[0]).get('k') == 'ArraySubscriptExpr' and short(strip(strip(ap[0])['b']).get('n', '')) == 'channelMap' and const_of(strip(ap[0])['i']) == 15 and const_of(ap[1]) == 9:
-                perc = True
-            if is_incdec(x) and x['op'] == '++' and short(strip(x['e']).get('n', '')) == 'currentChannel' and not x.get('post'):
-                gf = guard_facts(cm, b, st)
-                for f in gf:
-                    n = cmp_norm(f) if f[0] == 'cmp' else None
-                    if n and n[0] == '==' and short(strip(n[1]).get('n', '')) == 'currentChannel':
-                        skip = (n[2], st['loc'])
+    # the channel counter: the lvalue whose post-increment is stored into the channel map (`map[ch] = counter++`), in the converter
+    # or in a local helper that numbers the channels; the skip: a further increment of the same lvalue under `counter == K`
+    scope = [cm] + [cf for b, j, st in cm.cfg.stmts() for x in calls_in(st['s']) for cf in facts.fns.get(callee_name(x), [])[:1] if is_local_helper(cm, cf)]
+    for g_ in scope:
+        counter = None
+        for b, j, st in g_.cfg.stmts():
+            for x in walk(st['s']):
+                ap = assign_parts_raw(x)
+                if ap and ap[2] == '=' and strip(ap[0]).get('k') == 'ArraySubscriptExpr' and is_incdec(strip(ap[1])) and strip(ap[1])['op'] == '++':
+                    counter = show(strip(strip(ap[1])['e']))
+        for b, j, st in g_.cfg.stmts():
+            for x in walk(st['s']):
+                ap = assign_parts(x)
+                if g_ is cm and ap and strip(ap[0]).get('k') == 'ArraySubscriptExpr' and const_of(strip(ap[0])['i']) == 15 and const_of(ap[1]) == 9 and (strip(strip(ap[0])['b']).get('t') or {}).get('arr'):
+                    perc = True
+                if counter is not None and is_incdec(x) and x['op'] == '++' and show(strip(x['e'])) == counter:
+                    gf = guard_facts(g_, b, st)
+                    for f in gf:
+                        n = cmp_norm(f) if f[0] == 'cmp' else None
+                        if n and n[0] == '==' and show(strip(n[1])) == counter:
+                            skip = (n[2], st['loc'])
     obls.append(Obl('C17.R2', cm.name, 'MUS channel 15 is the percussion channel', cm.loc, 'discharged' if perc else 'finding', why='channelMap[15] = 9'))
     ok = skip is not None and skip[0] == 9
     obls.append(Obl('C17.R2', cm.name, 'MIDI channel 9 is skipped when numbering melodic channels', skip[1] if skip else cm.loc, 'discharged' if ok else 'finding',
@@ -136,7 +146,7 @@ def analyse(facts, tier):
                 if ap and short(strip(ap[0]).get('n', '')) == 'tempo' and ap[2] == '*=':
                     ks['tempo'] = const_of(ap[1])
                 if short(x.get('callee', '')) == 'xmi2mid_CreateNewEvent' and len(x['a']) == 2:
-                    a = strip(x['a'][1])
+                    a = strip(subst(x['a'][1], single_defs(fn.d)))      # the end time may have a name: `off_time = time + delta * 3`
                     if a.get('k') == 'BinaryOperator' and a['op'] == '+' and strip(a['r']).get('k') == 'BinaryOperator' and strip(a['r'])['op'] == '*' and 'delta' in show(a['r']):
                         ks['duration'] = const_of(strip(a['r'])['r'])
         for b, j, st in fn.cfg.returns():
@@ -211,7 +221,7 @@ def r5_stable(facts):
     n = 0
     for bid, b in fn.cfg.blocks.items():
         c = b.get('cond')
-        if c is None or b.get('term') != 'IfStmt':
+        if c is None or len(b.get('succ', [])) != 2:
             continue
         for f in literals(c, True):
             if f[0] != 'cmp':
@@ -224,9 +234,19 @@ def r5_stable(facts):
                 op = {'<': '>', '>': '<', '<=': '>=', '>=': '<='}.get(op, op)
             else:
                 continue
-            # the true edge must lead to the insertion (a calloc)
-            tb = fn.cfg.blocks[b['succ'][0]]
-            if not any(short(callee_name(y)) == 'calloc' for st in tb['stmts'] for y in walk(st['s'])):
+            # the true edge must lead to the insertion (a calloc) without another step of the walk (`cur = cur->next`): directly, or by
+            # leaving the walk loop in front of the allocation
+            def is_step(bid2):
+                for st2 in fn.cfg.blocks[bid2]['stmts']:
+                    for y in walk(st2['s']):
+                        ap2 = assign_parts_raw(y)
+                        if ap2 and ap2[2] == '=' and strip(ap2[1]).get('k') == 'MemberExpr' and short(strip(ap2[1])['n']) == 'next' and show(strip(strip(ap2[1])['b'])) == show(strip(ap2[0])):
+                            return True
+                return False
+            steps = {bid2 for bid2 in fn.cfg.blocks if is_step(bid2)}
+            allocs = {bid2 for bid2, blk2 in fn.cfg.blocks.items() if any(short(callee_name(y)) == 'calloc' for st2 in blk2['stmts'] for y in walk(st2['s']))}
+            t0 = b['succ'][0]
+            if t0 is None or not (t0 in allocs or any(a_ in fn.cfg.reachable_from(t0, avoid=steps) for a_ in allocs)):
                 continue
             n += 1
             ok = op == '>'
@@ -525,7 +545,7 @@ def r10_xmi_rewrites(facts):
             continue
         n += 1
         ok = False
-        for f in guard_facts(fn, b, st):
+        for f in guard_facts(fn, b, st, sd=single_defs(fn.d)) + guard_facts(fn, b, st):      # the nibble may have a name: `evtype = status >> 4`
             nn = cmp_norm(f) if f[0] == 'cmp' else None
             if nn and nn[0] == '==' and nn[2] == 0xB and any(isinstance(y, dict) and y.get('k') == 'BinaryOperator' and y.get('op') == '>>' and const_of(y.get('r')) == 4 for y in walk(nn[1])):
                 ok = True
